@@ -106,10 +106,31 @@ def feasible(hyps, timeout_ms=1000):
     explored, never fewer)."""
     s = z3.Solver()
     s.set("timeout", timeout_ms)
+    quant = False
     for f in hyps:
         if not _has_quant(f):
             s.add(f)
-    return s.check() != z3.unsat
+        else:
+            quant = True
+    if s.check() == z3.unsat:
+        return False
+    if quant and GROUND_FEASIBILITY[0]:
+        # second try with the universal hypotheses instantiated at the ground
+        # index terms (instances are consequences: unsat is still a proof of
+        # infeasibility, anything else counts as feasible)
+        try:
+            fs = ground_formulas(list(hyps), rounds=2, cap=12)
+        except z3.Z3Exception:
+            return True
+        s2 = z3.Solver()
+        s2.set("timeout", timeout_ms)
+        for f in fs:
+            s2.add(f)
+        return s2.check() != z3.unsat
+    return True
+
+
+GROUND_FEASIBILITY = [False]
 
 
 def smoke():
@@ -199,7 +220,18 @@ def _patterns(body, nvars):
                 var = z3.Var(v + shift, z3.IntSort())
                 off = z3.simplify(idx - var)
                 if _ground(off):
-                    out.append((t.arg(0), v, off))
+                    out.append((t.arg(0), v, off, 1))
+                    break
+                # A[k*j + c]: the instance j := (i - c) div k (any instance
+                # of a universal hypothesis is sound)
+                hit = False
+                for k in (2, 4, 8, 3, 6, 10, 12, 16, 32):
+                    off = z3.simplify(idx - k * var)
+                    if _ground(off):
+                        out.append((t.arg(0), v, off, k))
+                        hit = True
+                        break
+                if hit:
                     break
         for c in t.children():
             visit(c, shift)
@@ -216,9 +248,9 @@ def _candidates(f, table, extra, cap):
     """for a forall: per variable the terms to instantiate it with"""
     n = f.num_vars()
     cands = [dict() for _ in range(n)]
-    for arr, v, off in _patterns(f.body(), n):
+    for arr, v, off, k in _patterns(f.body(), n):
         for i in table.get(arr.get_id(), {}).values():
-            t = z3.simplify(i - off)
+            t = z3.simplify(i - off) if k == 1 else z3.simplify((i - off) / k)
             cands[v][t.get_id()] = t
     for v in range(n):
         if not cands[v]:
